@@ -575,6 +575,18 @@ pub mod ffi {
 }
 """ % {"U": U}
 
+def _dis_source(kind, lang):
+    """a type of `kind` disabled in `lang` but still used by an enabled item: that backend has to refuse the module (it cannot emit
+    the type); if it accepts, whatever it emits must still be well formed"""
+    t = "Dis%s%s" % (kind.capitalize(), lang.capitalize())
+    decl = {"st": "pub struct %s { pub a: u8 }" % t, "en": "pub enum %s { A, B }" % t, "op": "#[diplomat::opaque]\n    pub struct %s;" % t}[kind]
+    use = "&%s" % t if kind == "op" else t
+    holder = "" if kind == "op" else "    pub struct %sHolder { pub x: %s, pub n: u8 }\n" % (t, t)
+    hm = "" if kind == "op" else "        pub fn holder(&self) -> %sHolder %s\n" % (t, U)
+    return ("#[diplomat::bridge]\npub mod ffi {\n    #[diplomat::attr(%s, disable)]\n    %s\n%s    #[diplomat::opaque]\n    pub struct %sUser;\n"
+            "    impl %sUser {\n        pub fn take(&self, x: %s) -> u8 { 0 }\n%s    }\n}\n" % (lang, decl, holder, t, t, use, hm))
+
+
 # callbacks: every parameter kind and every return kind in a type of its own (file name = construct)
 CB_PARAM_KINDS = [("none", ""), ("prim", "u8"), ("prims", "i32, f64, bool"), ("char", "DiplomatChar"), ("enum", "CbEn"), ("struct", "CbSt"),
                   ("opaque-ref", "&CbOp"), ("opaque-mut", "&mut CbOp"), ("opt-opaque-ref", "Option<&CbOp>"), ("str", "&str"), ("str16", "&DiplomatStr16"),
@@ -626,6 +638,8 @@ def cb_source(items, sfx=""):
 
 
 SHAPE_GROUPS = {"attrs": ATTRS, "cyc": CYC, "multi": MULTI, "ns": NS, "ren": REN}
+# groups that a backend may refuse (not counted as an accepted module there)
+OPTIONAL_GROUPS = {"dis_%s_%s" % (k, l): _dis_source(k, l) for k in ("st", "en", "op") for l in ("c", "cpp", "js")}
 # `use crate::ma::..` in MULTI is resolved by rustc through these re-exports at the crate root (the tool sees multi.rs as root)
 SHAPE_ROOT_EXTRA = "pub use crate::multi::ma;\npub use crate::multi::mb;\n"
 
